@@ -213,6 +213,9 @@ type Req struct {
 	// Slow: the body arrives in len(Slow)+1 pieces and Slow[i] of virtual time passes (timers fire, background
 	// work runs) after piece i has been read. Only for requests issued from the main thread.
 	Slow []time.Duration
+	// Mid, with Slow: called after the time has passed and before piece i (1-based) is handed over: another request
+	// can be issued from here, in the middle of this one's body
+	Mid func(piece int)
 }
 
 // slowBody is a request body during whose transfer virtual time passes.
@@ -220,6 +223,7 @@ type slowBody struct {
 	data []byte
 	adv  []time.Duration
 	i    int
+	mid  func(int)
 }
 
 func (b *slowBody) Read(p []byte) (int, error) {
@@ -228,6 +232,9 @@ func (b *slowBody) Read(p []byte) (int, error) {
 	}
 	if b.i > 0 && b.i <= len(b.adv) {
 		vrt.Advance(b.adv[b.i-1], false)
+		if b.mid != nil {
+			b.mid(b.i)
+		}
 	}
 	left := len(b.adv) + 1 - b.i
 	n := (len(b.data) + left - 1) / left
@@ -336,7 +343,7 @@ func (w *World) DoNoQuiesce(r Req) (resp Resp) {
 	if r.Body != nil {
 		req.Body = io.NopCloser(bytes.NewReader(r.Body))
 		if len(r.Slow) > 0 {
-			req.Body = &slowBody{data: append([]byte{}, r.Body...), adv: r.Slow}
+			req.Body = &slowBody{data: append([]byte{}, r.Body...), adv: r.Slow, mid: r.Mid}
 		}
 		req.ContentLength = int64(len(r.Body))
 		if r.UnknownLen {
